@@ -126,6 +126,13 @@ impl<'r, TC: ModelCfg> HistVisitor<TC> for V20<'r> {
                             };
                             assert!(mgr.begin_transaction());
                             let r = mgr.tombstone_value_states(&AkdLabel(label.clone()), cutoff).await;
+                            // readers served while the transaction is still open (a publish in flight) see the tombstones only
+                            // as pending records: every label's lookup still verifies to its latest version
+                            for l in ctx.model.users.keys() {
+                                if let Err(b) = check_lookup::<TC, _>(&dir, l, &ctx.model, &ctx.published, Some(cur)).await {
+                                    self.rep.violation(ident(&format!("lookup_while_transaction_open/{}/{}", if l == label { "own" } else { "other" }, b.kind)), json!({"ctx": cx(), "detail": b.detail}));
+                                }
+                            }
                             let _ = mgr.set(R::Azks(azks)).await;
                             let c = mgr.commit_transaction().await;
                             match (r, c) {
